@@ -254,3 +254,8 @@ def unfiltered(ck, F, ml):
         ck.require(".text" in txt, "C20:DIAG:latest-text#%d" % k, "nothing filtered",
                    "analyze() receives the text carried by the notification",
                    "a notification handler analyses something other than the text it was sent: %s" % txt, c.span)
+
+
+def run_thorough(ck, F, E):
+    import clippy_xref
+    clippy_xref.cross_reference(ck, F, "C20", package="abasic-lsp", crate="abasic_lsp")
